@@ -4,8 +4,10 @@ expression over the primitives (`be sl cat low shr pow2 tb tl ...`), `ite`, `imp
 from specs.prims import *  # noqa: F401,F403
 
 
+@opaque('bytes', 'int', 'int', 'int')
 def bits(B, p, n):
-    """Unsigned big-endian value of bits p..p+n-1 of B (bit 0 = MSB of byte 0).  Property C03's oracle."""
+    """Unsigned big-endian value of bits p..p+n-1 of B (bit 0 = MSB of byte 0).  Property C03's oracle.
+    Opaque: only the proofs that list it under `reveal` see the definition; everyone else uses the lemmas below."""
     return low(shr(be(B), 8 * len(B) - p - n), n)
 
 
@@ -32,6 +34,37 @@ def byte_ordered(u, n, order):
     return ite(order == 'leastSignificantByteFirst', le(tb(u, ceil8(n))), u)
 
 
+# ---- framing (C02 / C10): record boundaries of a byte stream -----------------------------------------------------------
+
+def declared_len(T, a):
+    """value of the 16-bit length field of a packet whose primary header starts at byte a (0 when no whole header)"""
+    return ite(a >= 0 and a + 6 <= len(T), bits(T, 8 * a + 32, 16), 0)
+
+
+@uninterpreted('bytes', 'int', 'int', 'int')
+def fb(T, k, j):
+    """absolute byte offset at which record j (k foreign prefix bytes + one packet) of stream T starts"""
+    pos = 0
+    for _ in range(j):
+        pos = pos + k + 7 + declared_len(T, pos + k)
+    return pos
+
+
+def complete(T, k, j):
+    """record j lies entirely inside T"""
+    return fb(T, k, j) + k + 6 <= len(T) and fb(T, k, j + 1) <= len(T)
+
+
+@axiom
+def fb_zero(T, k):
+    return fb(T, k, 0) == 0
+
+
+@axiom
+def fb_step(T, k, j):
+    return implies(j >= 0, fb(T, k, j + 1) == fb(T, k, j) + k + 7 + declared_len(T, fb(T, k, j) + k))
+
+
 # ---- lemma schemas (instantiated explicitly through contract `hints`; each is checked concretely by
 # ---- pyvc/conformance.py on random arguments and stated in lean/PyVC.lean) ------------------------------------------
 
@@ -40,3 +73,15 @@ def bits_prefix(B, m, p, n):
     """bits inside the first m bytes of B are the bits of that prefix"""
     return implies(0 <= p and 0 <= n and p + n <= 8 * m and m <= len(B),
                    bits(B, p, n) == low(shr(be(sl(B, 0, m)), 8 * m - p - n), n))
+
+
+@axiom
+def bits_slice(B, lo, hi, p, n):
+    """bits of a slice are the bits of the whole at the shifted position"""
+    return implies(0 <= lo and lo <= hi and hi <= len(B) and 0 <= p and 0 <= n and p + n <= 8 * (hi - lo),
+                   bits(sl(B, lo, hi), p, n) == bits(B, 8 * lo + p, n))
+
+
+@axiom
+def bits_range(B, p, n):
+    return implies(n >= 0, 0 <= bits(B, p, n) and bits(B, p, n) < pow2(n))
